@@ -3,7 +3,7 @@
    physical lines of the data block, for any layout of the cards' tokens. *)
 From Coq Require Import List NArith ZArith Bool String Ascii.
 From T4V Require Import Base.Str C10.Model C10.ProofsStr C10.Spec C10.ProofsHead.
-From T4V Require C14.Model C14.ProofsContent C14.ProofsCards Properties.C14.
+From T4V Require C14.Model C14.ProofsContent C14.ProofsCards.
 Import ListNotations.
 Open Scope string_scope.
 
@@ -44,7 +44,7 @@ Theorem contents_linked (cs : list K14.lcard) (tailc : list string) (cards : lis
   Forall2 carries cs cards -> deck_contents cs tailc = map render_dcard cards.
 Proof.
   intros Hb Ht Hc. unfold deck_contents.
-  destruct (T4V.Properties.C14.C14_cards_layout cs tailc Hb Ht) as [-> _].
+  rewrite (K14.cards_layout cs tailc Hb Ht).
   clear - Hc. induction Hc as [|c d cs' ds H _ IH]; [reflexivity|]. simpl.
   now rewrite (carries_content c d H), IH.
 Qed.
